@@ -1232,7 +1232,7 @@ fn field_offsets(d: &[u8]) -> Vec<usize> {
 pub fn mutate(rng: &mut Rng, base: &Req) -> Req {
     let mut b = base.bytes.clone();
     let offs = field_offsets(&b);
-    let kind = rng.below(14);
+    let kind = rng.below(16);
     let name = match kind {
         0 => {
             for _ in 0..rng.usize(1, 8) {
@@ -1374,6 +1374,37 @@ pub fn mutate(rng: &mut Rng, base: &Req) -> Req {
                 b[i..i + n].copy_from_slice(&r);
             }
             "overwrite"
+        }
+        13 | 14 => {
+            // resize the body of one field in place (prefix kept, length field and everything after it consistent):
+            // cookies / unique ids / authenticators of every shorter length, with the rest of the packet intact
+            if let Some(p) = refntp::parse(&b) {
+                if !p.fields.is_empty() {
+                    // prefer the NTS cookie (key id prefix stays valid), otherwise any field
+                    let pick = if kind == 13 { p.fields.iter().position(|f| f.type_id == EF_NTS_COOKIE) } else { None }
+                        .unwrap_or_else(|| rng.usize(0, p.fields.len() - 1));
+                    let f = &p.fields[pick];
+                    let end = if pick + 1 < p.fields.len() { p.fields[pick + 1].offset } else { b.len() - p.trailer.len() };
+                    let v5 = (b[0] >> 3) & 7 == 5;
+                    let new_len = match rng.below(4) {
+                        0 => rng.usize(0, 40),
+                        1 => rng.usize(0, f.value.len()),
+                        2 => *rng.pick(&[0usize, 1, 2, 3, 4, 5, 6, 8, 16, 18, 19, 20, 21, 22, 23, 24, 28, 32]),
+                        _ => f.value.len() + rng.usize(1, 12),
+                    };
+                    let new_len = if v5 { new_len } else { new_len & !3 };
+                    let mut body: Vec<u8> = f.value.iter().copied().take(new_len).collect();
+                    while body.len() < new_len {
+                        body.push(0);
+                    }
+                    let enc = refntp::encode_field(f.type_id, &body, v5, None);
+                    let mut nb = b[..f.offset].to_vec();
+                    nb.extend_from_slice(&enc);
+                    nb.extend_from_slice(&b[end..]);
+                    b = nb;
+                }
+            }
+            if kind == 13 { "resize-cookie" } else { "resize-field" }
         }
         _ => {
             // pad to a length near the receive limit
